@@ -59,6 +59,14 @@ def tear(keys, arrays, common, acc, only_k=None):
         with open(path, "wb") as f:
             f.write(blob)
     deep = 0
+    # the COMPLETE file is loaded first (and its result dropped): a loader that remembers anything about an earlier successful load - a mapping
+    # kept per descriptor number, a size cached per path - must still reject what is left after the file has been torn
+    try:
+        with open(path, "rb") as f:
+            whole = IndxIO.load(f)
+        del whole
+    except Exception:
+        pass  # C10 reports complete files that do not load
     # every eighth file is ALSO loaded through a handle opened for update ("r+b"): the torn file must be rejected and left as it is
     update_too = (n + len(keys) + common) % 8 == 0 or only_k is not None
     for k in ks:
